@@ -210,12 +210,32 @@ func (c *Ctx) checkExtensionCodec() {
 // firstEmitted: the first constant string written by a WriteAlignment function
 // (first WriteString/Sprintf constant in dominance order, closures in call order).
 func (c *Ctx) firstEmitted(fn *ssa.Function) (string, bool) {
-	var best ssa.Instruction
-	bestS := ""
-	consider := func(in ssa.Instruction, s string) {
-		if best == nil || instrDominates(in, best) {
-			best, bestS = in, s
+	// Every emission to a text sink in the function: the Write* methods of bytes.Buffer,
+	// strings.Builder and bufio.Writer, and fmt.Fprint*. The first emitted byte is the constant
+	// prefix of the emission that dominates all the others; if that emission has no constant
+	// prefix the answer is unknown (never a guess from a later constant).
+	type em struct {
+		in  ssa.Instruction
+		s   string
+		cst bool
+	}
+	var ems []em
+	constPrefix := func(v ssa.Value) (string, bool) {
+		if s, ok := cStr(constOf(v)); ok {
+			return s, s != ""
 		}
+		if k, ok := constInt(v); ok && k > 0 && k < 0x110000 {
+			return string(rune(k)), true
+		}
+		if call, ok := v.(*ssa.Call); ok && (isPkgFunc(call.Common(), "fmt", "Sprintf")) {
+			if s, ok := cStr(constOf(call.Common().Args[0])); ok {
+				if i := strings.IndexByte(s, '%'); i >= 0 {
+					s = s[:i]
+				}
+				return s, s != ""
+			}
+		}
+		return "", false
 	}
 	allInstrs(fn, func(in ssa.Instruction) {
 		cc := callOf(in)
@@ -223,24 +243,43 @@ func (c *Ctx) firstEmitted(fn *ssa.Function) (string, bool) {
 			return
 		}
 		f := cc.StaticCallee()
-		if f == nil {
+		if f == nil || f.Pkg == nil {
 			return
 		}
+		pk := f.Pkg.Pkg.Path()
 		switch {
-		case f.Name() == "WriteString" && len(cc.Args) == 2:
-			if s, ok := cStr(constOf(cc.Args[1])); ok && s != "" {
-				consider(in, s)
-			} else if call, ok := cc.Args[1].(*ssa.Call); ok && isPkgFunc(call.Common(), "fmt", "Sprintf") {
-				if s, ok := cStr(constOf(call.Common().Args[0])); ok {
-					consider(in, s)
+		case (pk == "bytes" || pk == "strings" || pk == "bufio") && f.Signature.Recv() != nil && len(cc.Args) == 2 &&
+			(f.Name() == "WriteString" || f.Name() == "WriteByte" || f.Name() == "WriteRune" || f.Name() == "Write"):
+			s, ok := constPrefix(cc.Args[1])
+			ems = append(ems, em{in, s, ok})
+		case pk == "fmt" && (f.Name() == "Fprintf" || f.Name() == "Fprint" || f.Name() == "Fprintln") && len(cc.Args) >= 2:
+			s, ok := "", false
+			if f.Name() == "Fprintf" {
+				s, ok = constPrefix(cc.Args[1])
+				if i := strings.IndexByte(s, '%'); i >= 0 {
+					s = s[:i]
+					ok = s != ""
 				}
 			}
+			ems = append(ems, em{in, s, ok})
 		}
 	})
-	if best != nil {
-		return bestS, true
+	for _, e := range ems {
+		first := true
+		for _, o := range ems {
+			if o.in != e.in && !instrDominates(e.in, o.in) {
+				first = false
+				break
+			}
+		}
+		if first {
+			return e.s, e.cst
+		}
 	}
-	// everything is written inside an iteration callback (FASTA): first constant of the first closure
+	if len(ems) > 0 {
+		return "", false
+	}
+	// everything is written inside an iteration callback (FASTA): first emission of the first closure
 	for _, a := range fn.AnonFuncs {
 		if s, ok := c.firstEmitted(a); ok {
 			return s, true
